@@ -26,7 +26,7 @@ extern ToDurationE
   option pure
 
 extern ToStringE
-  props C06 C03
+  props C06 C03 C04 C09 C10
   option pure
 
 func ToFloat64E
@@ -63,7 +63,7 @@ func ToBoolE
 // the text of a number: an integer of any width is written exactly, digit by digit (never through a float), a float in
 // plain decimal notation at its own width
 func convertNumericToString
-  props C06 C03
+  props C06 C03 C04 C09 C10
   option pure
   ensures small-integers-are-written-exactly: hasType(input, int) || hasType(input, int8) || hasType(input, int16) || hasType(input, int32) || hasType(input, uint) || hasType(input, uint8) || hasType(input, uint16) || hasType(input, uint32) ==> result1 && result0 == strconv.Itoa(intval(input))
   ensures sixty-four-bit-integers-are-written-exactly: hasType(input, int64) ==> result1 && result0 == strconv.FormatInt(intval(input), 10)
